@@ -85,11 +85,63 @@ class Effects:
         self._direct = {}
         self._sites = {}
 
+    # ---- statements whose leading text is a parameter of the executing function ------------------
+    # (`void populate(db, const std::string& pragma, table) { db << pragma + "('" + table + "')" ... }`, the
+    # shared body of two constructors): read with the argument of every call in place of the parameter; all
+    # callers must agree on the kind of statement, otherwise it is dynamic SQL (any write)
+    def _callers_of(self, func):
+        if getattr(self, '_callers', None) is None:
+            self._callers = {}
+            for g in self.prog.functions.values():
+                if g.is_pattern or g.body is None or not self.prog.in_repo(g.file):
+                    continue
+                for ed in self.cg.edges(g):
+                    if ed.node.get('kind') in ('CallExpr', 'CXXMemberCallExpr'):
+                        for t in ed.targets:
+                            self._callers.setdefault(t.key, []).append((g, ed.node))
+        return self._callers.get(func.key, [])
+
+    def _head_variants(self, func, parts, depth=0):
+        head = parts[0]
+        if isinstance(head, str):
+            return [parts]
+        ref = strip(head.node, explicit=True).get('referencedDecl') or {}
+        names = [p_.get('id') for p_ in func.params]
+        if ref.get('kind') != 'ParmVarDecl' or ref.get('id') not in names or depth > 3:
+            return None
+        i = names.index(ref.get('id'))
+        out = []
+        cs = self._callers_of(func)
+        if not cs:
+            return None
+        for g, c in cs:
+            args = children(c)[1:]
+            if i >= len(args):
+                return None
+            ap = sites_mod._merge(sites_mod.sql_parts(args[i], sites_mod._string_locals(g)))
+            vs = self._head_variants(g, ap + list(parts[1:]), depth + 1)
+            if vs is None:
+                return None
+            out.extend(vs)
+        return out
+
     def sites(self, func):
         s = self._sites.get(func.key)
         if s is None:
             s = sites_mod.find_sites(func)
             for x in s:
+                ps = x.sql_parts
+                if len(ps) > 1 and not isinstance(ps[0], str):
+                    vs = self._head_variants(func, list(ps))
+                    if vs:
+                        sts = []
+                        for v in vs:
+                            c = sites_mod.Site()
+                            c.node, c.sql_parts = x.node, sites_mod._merge(v)
+                            sts.append(parse_site(c))
+                        kinds = {(classify(t), getattr(t, 'kind', None)) for t in sts}
+                        x.stored_in = sts[0] if len(kinds) == 1 else None
+                        continue
                 x.stored_in = parse_site(x)
             self._sites[func.key] = s
         return s
